@@ -45,6 +45,28 @@ type c24Vec struct {
 	St  []int    `json:"st"`
 	// "seq" vectors: requests sent one after the other to the same handler and file
 	Steps []c24Vec `json:"steps"`
+	// "hist" vectors: requests interleaved with "mod" (file replaced on disk) and "new"
+	// (new handler instance / cache expiry) events
+	HSteps []c24HStep `json:"hsteps"`
+}
+
+type c24HOut struct {
+	W  int   `json:"w"`
+	N  int   `json:"n"`
+	St []int `json:"st"`
+	S  int   `json:"s"`
+	E  int   `json:"e"`
+}
+
+type c24HStep struct {
+	Ev   string    `json:"ev"`
+	Ver  int       `json:"ver"`
+	M    string    `json:"m"`
+	Has  bool      `json:"has"`
+	V    []string  `json:"v"`
+	Ae   string    `json:"ae"`
+	ImsV int       `json:"imsv"`
+	Outs []c24HOut `json:"outs"`
 }
 
 var c24Mtime = time.Date(2021, 3, 4, 5, 6, 7, 500_000_000, time.UTC) // note the half second
@@ -123,6 +145,8 @@ func c24Start(t *testing.T, kind, root, croot string) *c24Srv {
 		f.CompressRoot = ""
 	case "osfs-nocache":
 		f.SkipCache = true
+	case "osfs-sameroot":
+		f.CompressRoot = "" // compressed siblings are created next to the originals (the default)
 	}
 	srv := &c24Srv{kind: kind, stop: stop}
 	fsh := f.NewRequestHandler()
@@ -318,7 +342,7 @@ func TestVerifC24(t *testing.T) {
 		"after":   string(AppendHTTPDate(nil, base.Add(time.Second))),
 	}
 
-	var reqs, seqs []c24Vec
+	var reqs, seqs, hists []c24Vec
 	npbr, npbrNontriv := 0, 0
 	vfEachLine(t, "", func(line []byte) {
 		var v c24Vec
@@ -341,6 +365,8 @@ func TestVerifC24(t *testing.T) {
 		case "seq":
 			mkfile(v.N)
 			seqs = append(seqs, v)
+		case "hist":
+			hists = append(hists, v)
 		default:
 			t.Fatalf("unknown vector kind %q", v.K)
 		}
@@ -476,7 +502,24 @@ func TestVerifC24(t *testing.T) {
 		}
 		c24Flush()
 	}
-	vfStat(npbr+nrand+nreq, npbrNontriv+nreqNontriv, vfRec{"parsebyterange_vectors": npbr, "parsebyterange_random": nrand,
+	// (4) histories: the file is replaced on disk between requests
+	nhist, nhistReq := 0, 0
+	hkinds := []string{"osfs", "osfs-sameroot", "osfs-nocache", "dirfs"}
+	for _, kind := range hkinds {
+		hroot := filepath.Join(os.Getenv("VERIF_WORK"), "c24hist-"+kind)
+		if err := os.MkdirAll(hroot, 0o755); err != nil {
+			t.Fatal(err)
+		}
+		for i, hv := range hists {
+			nhistReq += c24Hist(t, kind, hroot, fmt.Sprintf("h%d_%d.txt", i, hv.N), hv)
+			nhist++
+		}
+		c24Flush()
+	}
+	nreq += nhistReq
+	nreqNontriv += nhistReq
+
+	vfStat(npbr+nrand+nreq, npbrNontriv+nreqNontriv, vfRec{"fs_histories": nhist, "fs_history_requests": nhistReq, "parsebyterange_vectors": npbr, "parsebyterange_random": nrand,
 		"fs_requests": nreq, "fs_sequences": nseq, "fs_pooled_reader_sequences": npooled, "fs_kinds": strings.Join(kinds, ","), "file_sizes": len(contents)})
 	vfDone()
 }
@@ -646,4 +689,137 @@ func c24Judge(srv *c24Srv, v c24Vec, val, ae string, content []byte, r *c24Resp,
 		vfViol(key("head-body"), fmt.Sprintf("HEAD answered with %d body bytes", len(r.body)), cas)
 	}
 	return true
+}
+
+// ---- histories -------------------------------------------------------------------------
+
+func c24HContent(n0, ver int) []byte {
+	b := c24Content(n0 + 7*ver)
+	copy(b, fmt.Sprintf("<version %d>", ver))
+	return b
+}
+
+func c24HMtime(ver int) time.Time { return c24Mtime.Add(time.Duration(2*ver) * time.Second) }
+
+// c24PutFile replaces the file atomically (new inode), the way deployments update static
+// files; readers that still hold the old file keep seeing the old bytes.
+func c24PutFile(t *testing.T, root, name string, data []byte, mt time.Time) {
+	tmp := filepath.Join(root, ".tmp-"+name)
+	if err := os.WriteFile(tmp, data, 0o644); err != nil {
+		t.Fatal(err)
+	}
+	if err := os.Chtimes(tmp, mt, mt); err != nil {
+		t.Fatal(err)
+	}
+	if err := os.Rename(tmp, filepath.Join(root, name)); err != nil {
+		t.Fatal(err)
+	}
+}
+
+func c24HistName(steps []c24HStep) string {
+	var parts []string
+	for _, st := range steps {
+		parts = append(parts, st.Ev)
+	}
+	return strings.Join(parts, ",")
+}
+
+// c24Hist replays one history on its own file; returns the number of requests sent.
+// Every response must be the outcome for ONE of the versions the handler may serve:
+// status, bytes (decoded), Content-Range and Last-Modified all of that same version.
+func c24Hist(t *testing.T, kind, root, name string, hv c24Vec) int {
+	n0 := hv.N
+	c24PutFile(t, root, name, c24HContent(n0, 0), c24HMtime(0))
+	croot := root + "-comp"
+	srv := c24Start(t, kind, root, croot)
+	defer func() { srv.Close() }()
+	hname := c24HistName(hv.HSteps)
+	nreq := 0
+	for i, st := range hv.HSteps {
+		switch st.Ev {
+		case "mod":
+			c24PutFile(t, root, name, c24HContent(n0, st.Ver), c24HMtime(st.Ver))
+			continue
+		case "new":
+			srv.Close()
+			srv = c24Start(t, kind, root, croot)
+			continue
+		}
+		nreq++
+		val := strings.Join(st.V, "")
+		ims := ""
+		if st.ImsV >= 0 {
+			ims = string(AppendHTTPDate(nil, c24HMtime(st.ImsV).Truncate(time.Second)))
+		}
+		key := fmt.Sprintf("hist:%s:n=%d:[%s]#%d:%s", kind, n0, hname, i+1, st.Ev)
+		cas := vfRec{"fs": kind, "size0": n0, "history": hname, "step": i + 1, "event": st.Ev, "range": val, "accept_encoding": st.Ae,
+			"ims_version": st.ImsV, "version_on_disk": st.Ver}
+		r, err := srv.do(st.M, "/"+name, val, st.Has, ims, st.Ae)
+		if err != nil {
+			vfViol(key+":no-response", fmt.Sprintf("history [%s] step %d (%s): no complete, parsable response: %v", hname, i+1, st.Ev, err), cas)
+			continue
+		}
+		cas["status"] = r.status
+		cas["headers"] = r.hdr
+		if p, ok := r.hdr["X-Verif-Panic"]; ok {
+			vfViol("crash:"+key, fmt.Sprintf("history [%s] step %d (%s): the FS handler panicked: %s", hname, i+1, st.Ev, p), cas)
+			continue
+		}
+		var why []string
+		matched := false
+		for _, o := range st.Outs {
+			if kind == "osfs-nocache" && o.W != st.Ver {
+				continue // a handler that does not cache must serve the version on disk
+			}
+			if w := c24HistMatch(r, st, o, n0); w == "" {
+				matched = true
+				break
+			} else {
+				why = append(why, fmt.Sprintf("not version %d: %s", o.W, w))
+			}
+		}
+		if !matched {
+			vfViol(key, fmt.Sprintf("history [%s] on %s, step %d (%s, Accept-Encoding %q, Range %q; version on disk %d): status %d, Last-Modified %q, Content-Encoding %q, %d body bytes - %s",
+				hname, kind, i+1, st.Ev, st.Ae, val, st.Ver, r.status, r.hdr["Last-Modified"], r.hdr["Content-Encoding"], len(r.body), strings.Join(why, "; ")), cas)
+		}
+	}
+	return nreq
+}
+
+// c24HistMatch returns "" if response r is the reference outcome o (for version o.W) of step st.
+func c24HistMatch(r *c24Resp, st c24HStep, o c24HOut, n0 int) string {
+	if !c24In(o.St, r.status) {
+		return fmt.Sprintf("status %d not in %v", r.status, o.St)
+	}
+	content := c24HContent(n0, o.W)
+	lm := string(AppendHTTPDate(nil, c24HMtime(o.W).Truncate(time.Second)))
+	switch r.status {
+	case 200:
+		if r.hdr["Last-Modified"] != lm {
+			return fmt.Sprintf("Last-Modified %q, that version has %q", r.hdr["Last-Modified"], lm)
+		}
+		enc := r.hdr["Content-Encoding"]
+		if enc != "" && !c24Accepts(st.Ae, enc) {
+			return fmt.Sprintf("Content-Encoding %q not accepted (%q)", enc, st.Ae)
+		}
+		dec, err := c24Decode(enc, r.body)
+		if err != nil || !bytes.Equal(dec, content) {
+			return fmt.Sprintf("body decodes to %d bytes that are not that version's %d bytes (err %v)", len(dec), len(content), err)
+		}
+	case 206:
+		if r.hdr["Last-Modified"] != lm {
+			return fmt.Sprintf("Last-Modified %q, that version has %q", r.hdr["Last-Modified"], lm)
+		}
+		if want := fmt.Sprintf("bytes %d-%d/%d", o.S, o.E, o.N); r.hdr["Content-Range"] != want {
+			return fmt.Sprintf("Content-Range %q, expected %q", r.hdr["Content-Range"], want)
+		}
+		if !bytes.Equal(r.body, content[o.S:o.E+1]) {
+			return "body is not that version's slice"
+		}
+	case 304:
+		if len(r.body) != 0 {
+			return "304 with a body"
+		}
+	}
+	return ""
 }
